@@ -123,7 +123,10 @@ def _default_key_normalizer(
     # These are both dictionaries and need to be transformed into frozensets
     for key in ("headers", "_proxy_headers", "_socks_options"):
         if key in context and context[key] is not None:
-            context[key] = frozenset(context[key].items())
+            # Go through the iterator: the items view of an HTTPHeaderDict is a
+            # set subclass that holds nothing itself, and frozenset() copies the
+            # storage of a set without calling __iter__.
+            context[key] = frozenset(iter(context[key].items()))
 
     # The socket_options key may be a list and needs to be transformed into a
     # tuple.
